@@ -297,7 +297,7 @@ class FuncTranslator:
             self.var(scope[p])
             self.varkinds.setdefault(scope[p], set()).add("unknown")
         self.nparams = len(params)
-        for n in self.assigned_names(fn) - set(params):
+        for n in sorted(self.assigned_names(fn) - set(params)):
             scope[n] = f"l:{n}"
         self.scopes_names = set(scope)
         # names read or written inside nested defs / lambdas / comprehensions keep one variable
@@ -426,7 +426,7 @@ class FuncTranslator:
             self.varkinds.setdefault(scope[p], set()).add("unknown")
             self.assign(self.var(scope[p]), [], True, fn.lineno)
         if not isinstance(fn, ast.Lambda):
-            for n in self.assigned_names(fn) - set(scope):
+            for n in sorted(self.assigned_names(fn) - set(scope)):
                 scope[n] = f"{tag}:l:{n}"
         ret = self.var(name_key or f"{tag}:ret")
         self.scopes.append(scope)
@@ -474,7 +474,7 @@ class FuncTranslator:
         names = self.all_args(a)
         for n in names:
             scope[n] = f"{tag}:p:{n}"
-        for n in self.assigned_names(fn) - set(names):
+        for n in sorted(self.assigned_names(fn) - set(names)):
             scope[n] = f"{tag}:l:{n}"
         self.scopes = [scope]   # isolated: free names of the callee are module globals
         self.selfname = None
